@@ -270,6 +270,125 @@ def h_many_fast(r0: int, r1: int, r2: int, r3: int, n1: int, f1: int, f2: int, o
     return _ok_paths(files, basepath, fmd, rowspec) and fmd.num_rows == total and complete
 
 
+def _tail(rows, tag):
+    """the last bytes of a real data file holding one row group: some page bytes, footer, footer length, magic"""
+    import struct
+    elems = [parquet_thrift.SchemaElement(name="s", num_children=1, i32=True),
+             parquet_thrift.SchemaElement(name="c0", type=2, repetition_type=0, i32=True)]
+    md = parquet_thrift.ColumnMetaData(type=2, encodings=[0], path_in_schema=["c0"], codec=0, num_values=rows,
+                                       total_uncompressed_size=8 * rows, total_compressed_size=8 * rows,
+                                       data_page_offset=4, i32list=[1, 4])
+    rg = parquet_thrift.RowGroup(num_rows=rows, total_byte_size=tag,
+                                 columns=[parquet_thrift.ColumnChunk(meta_data=md, file_offset=4)])
+    fmd = parquet_thrift.FileMetaData(version=1, schema=elems, num_rows=rows, row_groups=[rg], created_by="x",
+                                      i32list=[1])
+    foot = bytes(fmd.to_bytes())
+    return b"\x07" * 5 + foot + struct.pack("<I", len(foot)) + b"PAR1"
+
+
+class _FSBytes:
+    def __init__(self, tails):
+        self.tails = tails
+
+    def cat(self, paths, start=None):
+        return {p: self.tails[p][start:] for p in sorted(paths)}
+
+
+ROWS4 = [2, 3]
+
+
+class _Memo:
+    def __init__(self, fn):
+        self.fn, self.seen = fn, {}
+
+    def __call__(self, arg):
+        if arg not in self.seen:
+            self.seen[arg] = self.fn(arg)
+        return self.seen[arg]
+
+
+def h_many_fast_parsed(i1: int, i2: int, i3: int, t2: int, t3: int) -> bool:
+    """
+    pre: 0 <= i1 <= 1 and 0 <= i2 <= 1 and 0 <= i3 <= 1 and 1 <= t2 <= 2 and 1 <= t3 <= 3
+    post: __return__
+    """
+    # four plain files; the footers of the last three are fetched as bytes and parsed by the real _get_fmd.  Files may
+    # hold the same number of rows and even byte-identical footers (equal sizes and statistics are common for pieces
+    # of one table): each row group must still point at its own file
+    i1, i2, i3 = _pick2(i1), _pick2(i2), _pick2(i3)
+    t2, t3 = _pick3(t2), _pick3(t3)
+    files = ["root/a.parq", "root/b.parq", "root/c.parq", "root/d.parq"]
+    rows = [2, ROWS4[i1], ROWS4[i2], ROWS4[i3]]
+    tags = [9, 1, t2, t3]                       # total_byte_size: equal tags + equal rows = identical footers
+    PF.registry = {files[0]: ([(rows[0], tags[0])], ["s"])}
+    fs = _FSBytes({files[k]: _tail(rows[k], tags[k]) for k in (1, 2, 3)})
+    saved = (api.ParquetFile, util._get_fmd)
+    api.ParquetFile = PF
+    if hasattr(util._get_fmd, "cache_info"):
+        # CrossHair executes the function underneath a functools cache wrapper (the C-level wrapper is not traced):
+        # memoisation is modelled explicitly - equal argument, same returned object
+        util._get_fmd = _Memo(util._get_fmd.__wrapped__)
+    try:
+        basepath, fmd = util.metadata_from_many(files, verify_schema=False, open_with=None, fs=fs)
+    finally:
+        api.ParquetFile, util._get_fmd = saved
+    got = [(rg.num_rows, rg.columns[0].file_path) for rg in fmd.row_groups]
+    want = [(rows[k], files[k][len("root/"):]) for k in range(4)]
+    return basepath == "root" and got == want and fmd.num_rows == sum(rows)
+
+
+def _pick2(v):
+    if v == 0:
+        return 0
+    if v == 1:
+        return 1
+    raise ValueError(v)
+
+
+def _pick3(v):
+    for k in (1, 2, 3):
+        if v == k:
+            return k
+    raise ValueError(v)
+
+
+def replay_h_many_fast_parsed(i1, i2, i3, t2, t3):
+    """four real files (pieces of one table: equal length, equal last column and statistics where the witness has
+    identical footers) opened as a list"""
+    import shutil, tempfile
+    import numpy as np
+    import pandas as pd
+    import fastparquet
+    rows = [2, ROWS4[i1], ROWS4[i2], ROWS4[i3]]
+    tags = [9, 1, t2, t3]
+    d = tempfile.mkdtemp(prefix="c14-")
+    try:
+        names, want = [], []
+        for k in range(4):
+            fn = os.path.join(d, "p%d.parq" % k)
+            n = rows[k]
+            # 'a' differs between files in the middle of a long column (same min/max/size), 'z' is the same: files
+            # with equal (rows, tag) end in identical bytes
+            a = np.zeros(4000 + n, dtype="int64")
+            a[-1] = 5
+            a[1000] = k + 1 if k else 0
+            z = np.full(4000 + n, tags[k], dtype="int64")
+            fastparquet.write(fn, pd.DataFrame({"a": a, "z": z}), stats=True)
+            names.append(fn)
+            want.append(int(a[1000]))
+        out = fastparquet.ParquetFile(names).to_pandas()
+        got, pos = [], 0
+        for k in range(4):
+            got.append(int(out["a"].iloc[pos + 1000]))
+            pos += 4000 + rows[k]
+        if len(out) != pos or got != want:
+            return True, "four files opened as a list: the marker values %r of the files come back as %r (%d rows)" % (
+                want, got, len(out))
+        return False, "each file's rows are its own"
+    finally:
+        shutil.rmtree(d, ignore_errors=True)
+
+
 class _IntNS:
     """util.int as the function uses it: int(1.4 * head_size) and int.from_bytes(<4 length bytes>, 'little')"""
 
